@@ -7,6 +7,8 @@ GenInit == Init /\ hist = <<>>
 GenNext ==
     \/ \E f \in Files, v \in Versions : Edit(f, v) /\ hist' = Append(hist, [a |-> "Edit", f |-> f, v |-> v, p |-> "", b |-> 0])
     \/ \E p \in Procs, b \in Bits : Load(p, b) /\ hist' = Append(hist, [a |-> "Load", f |-> "", v |-> 0, p |-> p, b |-> b])
+    \* the convenience functions direct_model.Iq / Iqxy / Gxi: a load at the default precision followed by one evaluation
+    \/ \E p \in Procs : Load(p, 64) /\ hist' = Append(hist, [a |-> "IqLoad", f |-> "", v |-> 0, p |-> p, b |-> 64])
     \/ \E p \in Procs : LoadSv(p) /\ hist' = Append(hist, [a |-> "SvLoad", f |-> "", v |-> 0, p |-> p, b |-> 64])
     \/ \E p \in Procs : NewProcess(p) /\ hist' = Append(hist, [a |-> "NewProcess", f |-> "", v |-> 0, p |-> p, b |-> 0])
 GenSpec == GenInit /\ [][GenNext]_<<vars, hist>>
